@@ -89,6 +89,134 @@ def coq_call_S(toks):
     return "s_chain %s [%s]" % (sv, "; ".join(levels))
 
 
+def coq_pat(pat):
+    return "[" + "; ".join(optz(x) for x in pat) + "]"
+
+
+def coq_mtype(toks, p):
+    tt, lay, pv, r2 = toks[p], toks[p + 1], toks[p + 2], toks[p + 3]; p += 4
+    pat = toks[p:p + r2]; p += r2
+    return "(mkmt %s %s (lkind_of_nat %d%%nat) %s)" % (ITY[tt], coq_pat(pat), lay, optz(pv)), p
+
+
+def coq_points(toks, p, R):
+    nidx = toks[p]; p += 1
+    if nidx < 0:
+        return "None", p
+    pts = [toks[p + k * R: p + (k + 1) * R] for k in range(nidx)]
+    return "(Some [" + "; ".join(zlist(q) for q in pts) + "])", p + nidx * R
+
+
+def coq_call_V(toks):
+    kind = toks[1]
+    if kind == 0:
+        R = toks[2 + 3]
+        sv, p = coq_mval(toks, 2)
+        tgt, p = coq_mtype(toks, p)
+        idxs, p = coq_points(toks, p, R)
+        return "v_conv %s %s %s" % (sv, tgt, idxs)
+    R = toks[2 + 3]
+    av, p = coq_mval(toks, 2)
+    bv, p = coq_mval(toks, p)
+    idxs = "(Some [])"
+    if p < len(toks):
+        idxs, p = coq_points(toks, p, R)
+    return "v_cmp %s %s %s" % (av, bv, idxs)
+
+
+def coq_call_K(toks):
+    sv, p = coq_mval(toks, 1)
+    tgt, p = coq_mtype(toks, p)
+    return "k_dbgconv %s %s" % (sv, tgt)
+
+
+def coq_call_A(toks):
+    R = toks[1 + 3]
+    sv, p = coq_mval(toks, 1)
+    idxs, p = coq_points(toks, p, R)
+    return "a_access %s %s" % (sv, idxs)
+
+
+def coq_call_X(toks):
+    kind = toks[1]
+    p = 2
+
+    def rtype(p):
+        t, r = toks[p], toks[p + 1]
+        return ITY[t], r, toks[p + 2:p + 2 + r], p + 2 + r
+    if kind == 0:
+        t, r, pat, p = rtype(p)
+        mode, n = toks[p + 2], toks[p + 3]; p += 4
+        return "x_ctor %s %s %d%%nat %s" % (t, coq_pat(pat), mode, zlist(toks[p:p + n]))
+    if kind == 1:
+        ts, r, pats, p = rtype(p)
+        tt = ITY[toks[p]]; p += 1
+        patt = toks[p:p + r]; p += r
+        return "x_conv %s %s %s %s %s" % (ts, coq_pat(pats), tt, coq_pat(patt), zlist(toks[p:p + r]))
+    ta, ra, pata, p = rtype(p)
+    tb, rb, patb, p = rtype(p)
+    return "x_cmp %s %s %s %s %s %s" % (ta, coq_pat(pata), tb, coq_pat(patb), zlist(toks[p:p + ra]), zlist(toks[p + ra:p + ra + rb]))
+
+
+def coq_call_R(toks):
+    sv, p = coq_mval(toks, 1)
+    arrn = optz(toks[p]); p += 1
+    nops = toks[p]; p += 1
+    ops = []
+    for _ in range(nops):
+        k = toks[p]; p += 1
+        if k == 0:
+            ops.append("RCtorMap %d%%nat" % toks[p]); p += 1
+        elif k == 1:
+            ops.append("RCtorCtr %d%%nat" % toks[p + 1]); p += 2
+        elif k == 2:
+            ops.append("RCopy %d%%nat" % toks[p]); p += 1
+        elif k == 3:
+            ops.append("RMove %d%%nat" % toks[p]); p += 1
+        elif k == 4:
+            ops.append("RAssign %d%%nat %d%%nat" % (toks[p], toks[p + 1])); p += 2
+        else:
+            i, r = toks[p], toks[p + 1]; p += 2
+            idx = toks[p:p + r]; p += r
+            x = toks[p]; p += 1
+            ops.append("%s %d%%nat %s %s" % ("RWrite" if k == 5 else "RWriteView", i, zlist(idx), zlit(x)))
+    return "r_program %s %s [%s]" % (sv, arrn, "; ".join(ops))
+
+
+def coq_call_P(toks):
+    p = 1
+    nt = toks[p]; p += 1
+    tys = []
+    for _ in range(nt):
+        t, lay, r = toks[p], toks[p + 1], toks[p + 2]; p += 3
+        pat = toks[p:p + r]; p += r
+        acc = toks[p]; p += 1
+        tys.append("(mkptype %s %d%%nat %s %d%%nat)" % (ITY[t], lay, coq_pat(pat), acc))
+    r = toks[p]; p += 1
+    vecs = []
+    for _ in range(4):
+        vecs.append(zlist(toks[p:p + r])); p += r
+    nops = toks[p]; p += 1
+    ops = []
+    for _ in range(nops):
+        k = toks[p]; p += 1
+        if k == 0:
+            ops.append("PCtor %d%%nat %d%%nat %s" % (toks[p], toks[p + 1], zlit(toks[p + 2]))); p += 3
+        elif k == 1:
+            ops.append("PCopy %d%%nat" % toks[p]); p += 1
+        elif k == 2:
+            ops.append("PMove %d%%nat" % toks[p]); p += 1
+        else:
+            nm = {3: "PAssign", 4: "PMoveAssign", 5: "PSwap", 6: "PConv"}.get(k, "PAssignConv")
+            ops.append("%s %d%%nat %d%%nat" % (nm, toks[p], toks[p + 1])); p += 2
+    return "p_program [%s] %s [%s]" % ("; ".join(tys), " ".join(vecs), "; ".join(ops))
+
+
+CALLS = {"M": coq_call_M, "S": coq_call_S, "V": coq_call_V, "K": coq_call_K, "A": coq_call_A, "X": coq_call_X, "R": coq_call_R, "P": coq_call_P}
+# family A: the driver prints the five model values under eleven labels (one per access form); these are the distinct ones, in model order
+A_LABELS = ["dir", "par", "psp", "heap", "rb"]
+
+
 def parse_coq_transcript(text):
     """'= [TZ (Ok 3); TL (Ok [1; 2]); TB (Ok [true]); TZ UB] : list tval' -> list of printed values as the drivers print them"""
     text = " ".join(text.split())
@@ -118,11 +246,11 @@ def cross_check(rep, prop, family, samples, workdir):
     if not samples:
         return 0
     os.makedirs(workdir, exist_ok=True)
-    call = coq_call_M if family == "M" else coq_call_S
-    lines = ["From Coq Require Import ZArith List.", "From MdspanVerif Require Import MachInt ListAux Layouts Extents Convert View Submdspan DriverModel.",
+    call = CALLS[family]
+    lines = ["From Coq Require Import ZArith List.", "From MdspanVerif Require Import MachInt ListAux Layouts Extents Convert View MdArray Submdspan DriverModel.",
              "Import ListNotations.", "Local Open Scope Z_scope.", "Set Printing Width 1000000.", "Set Printing Depth 1000000."]
     for k, (toks, ml) in enumerate(samples):
-        lines.append("Eval vm_compute in (%d%%nat, %s)." % (k, call(toks)))
+        lines.append("Eval vm_compute in (%d%%nat, %s)." % (k, call([int(x) for x in toks])))
     path = os.path.join(workdir, "incoq_%s_%s.v" % (prop, family))
     open(path, "w").write("\n".join(lines) + "\n")
     rc, o, e = sh("timeout 900 coqc -Q %s MdspanVerif %s" % (COQ, path), timeout=1000)
@@ -143,6 +271,9 @@ def cross_check(rep, prop, family, samples, workdir):
     n = 0
     for k, (toks, ml) in enumerate(samples):
         vals = [f.split("=", 1)[1] for f in ml.split()[2:] if "=" in f]
+        if family == "A":
+            d = dict(f.split("=", 1) for f in ml.split()[2:] if "=" in f)
+            vals = [d[k] for k in A_LABELS] if all(k in d for k in A_LABELS) else vals
         g = got.get(k)
         if g is None:
             rep.violation("could not read Coq's own evaluation of a sampled %s case" % family,
@@ -154,3 +285,15 @@ def cross_check(rep, prop, family, samples, workdir):
                           {"obligation": "corr:extraction/%s" % family, "case_tokens": toks, "extracted": vals, "in_coq": g, "signature": "incoq-diff:%s" % family}, True)
             break
     return n
+
+
+def sample_check(rep, prop, family, records, tier, seed, work, replay, n=40):
+    """thorough tier only: a seeded sample of a family's cases is evaluated inside Coq as well"""
+    import random, common
+    if tier != "thorough" or replay or common.is_scaled() or common.CFG_OVERRIDE:
+        return 0
+    smp = [r for r in records if r.get("model_line") and "=" in r["model_line"]]
+    smp.sort(key=lambda r: len(r["case_line"]))
+    smp = smp[: max(n, (2 * len(smp)) // 3)]          # the longest third (huge enumerations) is left out: vm_compute prints every value
+    smp = random.Random(seed + 99).sample(smp, min(n, len(smp)))
+    return cross_check(rep, prop, family, [(r["toks"], r["model_line"]) for r in smp], os.path.join(work, "incoq"))
